@@ -76,6 +76,11 @@ BREAK = {
         (['C06.e'], FR, "        if frag_offset == 0:\n            reassm.first_frag = ctr.bundle", "        if reassm.first_frag is None:\n            reassm.first_frag = ctr.bundle"),
     ],
     'C07': [
+        (['C07.b'], 'tcpcl/contact.py', "        if len(s) < len(MAGIC_HEAD) + 1:\n            raise formats.VerifyError('Contact header too short')\n", ""),
+        (['C07.b'], 'tcpcl/contact.py', "        if not self.payload:\n            raise formats.VerifyError('Contact header without payload')\n", ""),
+        (['C07.b'], 'tcpcl/contact.py', "        if len(s) < len(MAGIC_HEAD) + 1:", "        if len(s) < len(MAGIC_HEAD):"),
+        (['C07.g'], 'tcpcl/contact.py', "        formats.remove_padding(self)\n", ""),
+        (['C07.d'], M, "            if msgcls.fields_desc:\n                raise formats.VerifyError('Message without payload')", "            if True:\n                raise formats.VerifyError('Message without payload')"),
         (['C07.e'], M, "packet.bind_layers(MessageHead, TransferAck, msg_id=0x2)\npacket.bind_layers(MessageHead, TransferRefuse, msg_id=0x3)", "packet.bind_layers(MessageHead, TransferAck, msg_id=0x3)\npacket.bind_layers(MessageHead, TransferRefuse, msg_id=0x2)"),
         (['C07.a'], S, "                self._logger.debug('Decoded partial packet: %s', err)\n                return", "                self._logger.debug('Decoded partial packet: %s', err)\n                self.__rx_buf = self.__rx_buf[1:]\n                return"),
         (['C07.c'], M, "        formats.verify_sized_item(self.length, self.getfieldval('data'))\n", ""),
@@ -139,6 +144,8 @@ BREAK = {
         (['C16.b'], SEC, "        if plaintext is not None:\n            LOGGER.info('Verified BCB num", "        if plaintext:\n            LOGGER.info('Verified BCB num"),
     ],
     'C17': [
+        (['C17.f'], M, "        if msgcls is self.default_payload_class(b''):", "        if False:"),
+        (['C17.a'], 'tcpcl/contact.py', "        if len(s) < len(MAGIC_HEAD) + 1:\n            raise formats.VerifyError('Contact header too short')\n", ""),
         (['C17.e'], S, "        self._tx_pend_ack.discard(item)\n        if item in self._tx_pend_start:", "        self._tx_pend_ack.clear()\n        if item in self._tx_pend_start:"),
         (['C17.a'], S, "        if transfer_id not in self._tx_map:\n            raise RejectError(messages.RejectMsg.Reason.UNEXPECTED)\n\n        if self._config.modulate_target_ack_time is not None:", "        if self._config.modulate_target_ack_time is not None:"),
         (['C17.b'], S, "                elif msgcls in (messages.Keepalive, messages.RejectMsg):", "                elif msgcls in (messages.Keepalive,):"),
@@ -241,9 +248,9 @@ def _job(args):
             return (kind, name, 'MISMATCH', 'expected a violation of {} but got {} (errors: {})'.format(expect, sorted(obs), [ob.oid for ob in chk.obligations if ob.error]))
         if kind == 'benign':
             base_keys = _keys(_decide(prop), known)
-            if payload == 'unparse-all':
-                base = Tree()
-                ov = {rel: ast.unparse(mod.tree) + '\n' for rel, mod in base.modules.items()}
+            if isinstance(payload, str):
+                from . import benign
+                ov = benign.overlay(Tree(), payload)
             else:
                 (rel, old, new) = payload
                 ov = _apply_text(Tree(), rel, old, new)
@@ -283,7 +290,9 @@ def run(prop, tree):
     jobs = []
     for ix, payload in enumerate(BREAK.get(prop, [])):
         jobs.append(('break', prop, 'break-{}-{}'.format('/'.join(payload[0]), ix), payload))
-    jobs.append(('benign', prop, 'benign-unparse-all', 'unparse-all'))
+    from . import benign
+    for name in benign.TRANSFORMS:
+        jobs.append(('benign', prop, 'benign-tree-' + name, name))
     for ix, payload in enumerate(BENIGN.get(prop, [])):
         jobs.append(('benign', prop, 'benign-{}'.format(ix), payload))
     for sd in sorted(glob.glob(os.path.join(VERIF, 'seeded', prop + '-*'))):
